@@ -598,6 +598,169 @@ Section Converse.
   Qed.
 End Converse.
 
+
+Lemma sumn_remove n i f : (i < n)%nat ->
+  sumn n (fun j => if Nat.eqb j i then 0 else f j) == sumn n f - f i.
+Proof.
+  intros Hi. rewrite <- (sumn_delta n i f Hi). rewrite <- sumn_minus.
+  apply sumn_ext. intros j _. destruct (Nat.eqb j i); ring.
+Qed.
+
+Section Async.
+  Variable n : nat.
+  Variable pred : nat -> list nat.
+  Variable alpha : Q.
+  Variable v : nat -> Q.
+  Hypothesis Hg : wf_graph n pred.
+  Hypothesis Ha : wf_alpha alpha.
+  Hypothesis Hv : stochastic n v.
+  Variable md : prmode.
+  Notation Gmat := (Gmat n pred v md).
+  Notation slf := (self_loop_factor n pred alpha v md).
+
+  Lemma slf_G i : (i < n)%nat -> slf i == 1 - alpha * Gmat i i.
+  Proof.
+    intros Hi. unfold self_loop_factor, PageRankQ.Gmat, Pmat, has_loop.
+    destruct (dang n pred i) eqn:Ed.
+    - rewrite (dang_inv n pred i Ed).
+      destruct md; cbn [uvec]; destruct (memb i (pred i)); ring.
+    - destruct (memb i (pred i)); ring.
+  Qed.
+
+  Lemma slf_pos i : (i < n)%nat -> 0 < slf i.
+  Proof.
+    intros Hi.
+    assert (Hu0 : 0 <= uvec n v md i) by (eapply uvec_nonneg; eassumption).
+    assert (Hu1 : uvec n v md i <= 1) by (eapply uvec_le1; eassumption).
+    pose proof (inv_nonneg n pred i) as Hi0.
+    pose proof (inv_le1 n pred i) as Hi1.
+    destruct Ha as [Ha0 Ha1].
+    unfold self_loop_factor. destruct (dang n pred i); [destruct md|destruct (has_loop pred i)]; nra.
+  Qed.
+
+  (** the update in dense form: reads [r], own old value [r i], dangling rank of [x] *)
+  Lemma upd_dense r x i : (i < n)%nat -> r i == x i ->
+    upd n pred alpha v md r (dangling_rank n pred x) i * slf i ==
+    (1 - alpha) * v i +
+    alpha * sumn n (fun j => if Nat.eqb j i then 0
+                             else r j * Pmat n pred j i + (if dang n pred j then x j else 0) * uvec n v md i).
+  Proof.
+    intros Hi Hri. unfold upd.
+    rewrite Qmult_comm, Qmult_div_r by (pose proof (slf_pos i Hi); lra).
+    destruct (Hg i Hi) as [Hnd Hr].
+    rewrite (sumn_ext n _ (fun j => (if memb j (pred i) then (if Nat.eqb j i then 0 else r j * inv n pred j) else 0)
+                 + (if Nat.eqb j i then 0 else (if dang n pred j then x j else 0)) * uvec n v md i)).
+    2:{ intros j _. unfold Pmat. destruct (Nat.eqb j i); destruct (memb j (pred i)); ring. }
+    rewrite sumn_plus, sumn_scale_r.
+    rewrite (sumn_indicator n (pred i) (fun j => if Nat.eqb j i then 0 else r j * inv n pred j) Hnd Hr).
+    rewrite (sumn_remove n i (fun j => if dang n pred j then x j else 0) Hi).
+    fold (dangling_rank n pred x). unfold sigma_pred.
+    destruct md; cbn [uvec]; destruct (dang n pred i); rewrite ?Hri; ring.
+  Qed.
+
+  Variable x x' y : nat -> Q.
+  Variable s : nat -> nat -> bool.
+  Let rd (i j : nat) : Q := if Nat.eqb j i then x i else if s i j then x j else x' j.
+  Hypothesis Hstep : forall i, (i < n)%nat ->
+    x' i == upd n pred alpha v md (rd i) (dangling_rank n pred x) i.
+  Hypothesis Hy : solves n pred alpha v md y.
+  Let w (j : nat) : Q := Qabs (x' j - y j) + Qabs (x' j - x j).
+
+  Lemma abs_tri3 a b c : Qabs (a - c) <= Qabs (b - c) + Qabs (b - a).
+  Proof.
+    setoid_replace (a - c) with ((b - c) + - (b - a)) by ring.
+    eapply Qle_trans; [apply Qabs_triangle|]. rewrite Qabs_opp. apply Qle_refl.
+  Qed.
+
+  Lemma async_node i : (i < n)%nat ->
+    Qabs (x' i - y i) <= alpha * sumn n (fun j => w j * Gmat j i).
+  Proof.
+    intros Hi.
+    pose proof (solution_is_fixed_point_aux n pred alpha v Hg Ha Hv md y Hy i Hi) as Hyi.
+    assert (A : x' i * slf i == (1 - alpha) * v i +
+      alpha * sumn n (fun j => if Nat.eqb j i then 0
+         else rd i j * Pmat n pred j i + (if dang n pred j then x j else 0) * uvec n v md i)).
+    { rewrite (Hstep i Hi) at 1. apply upd_dense; [exact Hi|]. unfold rd. rewrite Nat.eqb_refl. reflexivity. }
+    assert (B : y i * slf i == (1 - alpha) * v i +
+      alpha * sumn n (fun j => if Nat.eqb j i then 0
+         else y j * Pmat n pred j i + (if dang n pred j then y j else 0) * uvec n v md i)).
+    { rewrite Hyi at 1. apply upd_dense; [exact Hi|reflexivity]. }
+    assert (C : (x' i - y i) * slf i == alpha * sumn n (fun j => if Nat.eqb j i then 0
+         else (rd i j - y j) * Pmat n pred j i + (if dang n pred j then x j - y j else 0) * uvec n v md i)).
+    { setoid_replace ((x' i - y i) * slf i) with (x' i * slf i - y i * slf i) by ring.
+      rewrite A, B.
+      setoid_replace ((1 - alpha) * v i + alpha * sumn n (fun j => if Nat.eqb j i then 0
+           else rd i j * Pmat n pred j i + (if dang n pred j then x j else 0) * uvec n v md i) -
+         ((1 - alpha) * v i + alpha * sumn n (fun j => if Nat.eqb j i then 0
+           else y j * Pmat n pred j i + (if dang n pred j then y j else 0) * uvec n v md i)))
+        with (alpha * (sumn n (fun j => if Nat.eqb j i then 0
+           else rd i j * Pmat n pred j i + (if dang n pred j then x j else 0) * uvec n v md i) -
+          sumn n (fun j => if Nat.eqb j i then 0
+           else y j * Pmat n pred j i + (if dang n pred j then y j else 0) * uvec n v md i))) by ring.
+      rewrite <- sumn_minus. apply Qmult_comp; [reflexivity|]. apply sumn_ext. intros j _.
+      destruct (Nat.eqb j i); [ring|]. destruct (dang n pred j); ring. }
+    pose proof (slf_pos i Hi) as Hpos.
+    assert (Hu0 : 0 <= uvec n v md i) by (eapply uvec_nonneg; eassumption).
+    assert (D : Qabs (x' i - y i) * slf i <=
+                alpha * sumn n (fun j => if Nat.eqb j i then 0 else w j * Gmat j i)).
+    { rewrite <- (Qabs_pos (slf i)) at 1 by lra. rewrite <- Qabs_Qmult, C, Qabs_Qmult.
+      rewrite (Qabs_pos alpha) by apply Ha.
+      rewrite !(Qmult_comm alpha). apply Qmult_le_compat_r; [|apply Ha].
+      eapply Qle_trans; [apply sumn_abs|]. apply sumn_le. intros j Hj.
+      destruct (Nat.eqb j i) eqn:E; [cbn; apply Qle_refl|].
+      eapply Qle_trans; [apply Qabs_triangle|]. rewrite !Qabs_Qmult.
+      pose proof (Pmat_nonneg n pred j i) as HP.
+      rewrite (Qabs_pos (Pmat n pred j i)) by exact HP.
+      rewrite (Qabs_pos (uvec n v md i)) by exact Hu0.
+      assert (H1 : Qabs (rd i j - y j) <= w j).
+      { unfold rd, w. rewrite E. destruct (s i j).
+        - apply abs_tri3.
+        - pose proof (Qabs_nonneg (x' j - x j)). lra. }
+      assert (H2 : Qabs (if dang n pred j then x j - y j else 0) <= w j).
+      { unfold w. destruct (dang n pred j).
+        - apply abs_tri3.
+        - pose proof (Qabs_nonneg (x' j - x j)). pose proof (Qabs_nonneg (x' j - y j)). change (Qabs 0) with 0. lra. }
+      unfold PageRankQ.Gmat.
+      assert (H3 : Qabs (if dang n pred j then x j - y j else 0) * uvec n v md i <=
+                   w j * (if dang n pred j then uvec n v md i else 0)).
+      { destruct (dang n pred j); [nra|]. change (Qabs 0) with 0. lra. }
+      nra. }
+    rewrite (sumn_remove n i (fun j => w j * Gmat j i) Hi) in D.
+    rewrite (slf_G i Hi) in D.
+    assert (Hw : Qabs (x' i - y i) <= w i).
+    { unfold w. pose proof (Qabs_nonneg (x' i - x i)). lra. }
+    assert (HG : 0 <= Gmat i i) by (eapply Gmat_nonneg; eassumption).
+    destruct Ha as [Ha0 Ha1].
+    set (S := sumn n (fun j => w j * Gmat j i)) in *.
+    assert (HK : 0 <= alpha * Gmat i i * (w i - Qabs (x' i - y i))).
+    { apply Qmult_le_0_compat; [apply Qmult_le_0_compat; lra|lra]. }
+    lra.
+  Qed.
+
+  Theorem async_error_bound :
+    (1 - alpha) * sumn n (fun i => Qabs (x' i - y i)) <= alpha * sumn n (fun i => Qabs (x' i - x i)).
+  Proof.
+    assert (H1 : sumn n (fun i => Qabs (x' i - y i)) <=
+                 alpha * sumn n (fun i => sumn n (fun j => w j * Gmat j i))).
+    { rewrite <- sumn_scale. apply sumn_le. intros i Hi. apply async_node. exact Hi. }
+    rewrite sumn_swap in H1.
+    assert (H2 : sumn n (fun j => sumn n (fun i => w j * Gmat j i)) <= sumn n w).
+    { apply sumn_le. intros j Hj. rewrite sumn_scale.
+      pose proof (Gmat_row_le1 n pred v Hg Hv md j) as Hr.
+      change (sumn n (fun i => Gmat j i)) with (sumn n (Gmat j)) in Hr.
+      assert (0 <= w j).
+      { unfold w. pose proof (Qabs_nonneg (x' j - x j)). pose proof (Qabs_nonneg (x' j - y j)). lra. }
+      nra. }
+    assert (H3 : sumn n w == sumn n (fun i => Qabs (x' i - y i)) + sumn n (fun i => Qabs (x' i - x i))).
+    { unfold w. rewrite sumn_plus. reflexivity. }
+    destruct Ha as [Ha0 Ha1].
+    set (E := sumn n (fun i => Qabs (x' i - y i))) in *.
+    set (Dl := sumn n (fun i => Qabs (x' i - x i))) in *.
+    set (W := sumn n (fun j => sumn n (fun i => w j * Gmat j i))) in *.
+    nra.
+  Qed.
+End Async.
+
 (** ** The pinned statements *)
 Theorem exact_certificate_thm : S_exact_certificate.
 Proof. exact exact_certificate. Qed.
@@ -639,4 +802,10 @@ Proof.
   - intros y Hy. apply (unique _ _ _ _ Hg Ha Hv md); assumption.
   - apply (nonneg _ _ _ _ Hg Ha Hv md). exact Hs.
   - intros Hmd. apply (stochastic_sum _ _ _ _ Hg Ha Hv md); assumption.
+Qed.
+
+Theorem async_error_bound_thm : S_async_error_bound.
+Proof.
+  intros n pred alpha v md x x' st y (Hg & Ha & Hv) Hstep Hy.
+  apply (async_error_bound n pred alpha v Hg Ha Hv md x x' y st); assumption.
 Qed.
